@@ -186,7 +186,7 @@ def shrink(mod, rec, kind, procs, budget=400):
         if not cands:
             break
         tried += len(cands)
-        recs = evaluate(mod, cands, 1, with_model=(kind == "corr"))
+        recs = evaluate(mod, cands, procs, with_model=(kind == "corr"))
         for r in recs:
             if r[kind]:
                 if kind == "oracle" and sig_of(mod, r) != sig_of(mod, best):
